@@ -23,6 +23,8 @@ pub mod server;
 pub mod session;
 /// Utility modules (error, auth, TLS, etc.)
 pub mod util;
+#[cfg(feature = "verif")]
+pub mod verif;
 
 pub use client::*;
 pub use padding::*;
